@@ -51,6 +51,7 @@ def judge (j : Json) : Except String Json := do
   -- suggest-specific predicates (C02)
   let mut handedOK := true
   let mut countOK := true
+  let mut surplusOK := true
   let mut expected : Json := .null
   match j.getObjVal? "req" with
   | .ok rq =>
@@ -78,6 +79,18 @@ def judge (j : Json) : Except String Json := do
         expected := toJson want
         if (j.getObjValAs? Bool "countApplies").toOption.getD false then
           countOK := handed.length == want
+        -- nothing the algorithm delivered is dropped, nothing is invented (c02_surplus_queued): the trials
+        -- that are NEW after the call are exactly the delivered suggestions when the algorithm had to be
+        -- consulted (own + queued < count) and none otherwise; those not handed out wait as REQUESTED
+        if (j.getObjValAs? Bool "countApplies").toOption.getD false then
+          match after.studies.find? (fun x => x.owner == o && x.sid == s) with
+          | none => surplusOK := false
+          | some st' =>
+            let fresh' := st'.trials.filter fun t => !(st.trials.any fun u => u.id == t.id)
+            let consulted := own + pl < count
+            if fresh'.length != (if consulted then delivered else 0) then surplusOK := false
+            if !(fresh'.all fun t => (handed.any fun h => h.id == t.id) || (t.state == .requested && t.client == "")) then
+              surplusOK := false
         -- sticky: enough own trials -> exactly the first `count` of them, in datastore order
         if own ≥ count && (j.getObjValAs? Bool "countApplies").toOption.getD false then
           if handed.map (·.id) != ((ownActive st client).take count).map (·.id) then countOK := false
@@ -92,7 +105,7 @@ def judge (j : Json) : Except String Json := do
     | .error _ => .null
   return Json.mkObj [("specError", spec), ("lifecycle", toJson lifecycle), ("fresh", toJson fresh), ("nodup", toJson nodup),
     ("clients", toJson clients), ("pendingFree", toJson pendingFree), ("noActiveEs", toJson noActiveEs),
-    ("handedOK", toJson handedOK), ("countOK", toJson countOK), ("expectedCount", expected), ("bad", toJson bad)]
+    ("handedOK", toJson handedOK), ("countOK", toJson countOK), ("surplusOK", toJson surplusOK), ("expectedCount", expected), ("bad", toJson bad)]
   where
     ownActive (st : Study) (client : String) : List Trial := st.trials.filter fun t => t.state == .active && t.client == client
     pool (st : Study) : List Trial := st.trials.filter (·.state == .requested)
